@@ -483,11 +483,7 @@ theorem legacy_bridgeToken_not_injective :
 /-! ## the same state machine with the formats of commit 6774338: the executed event is NOT the voted one -/
 
 /-- store key of the pinned commit, with an ideal (injective) hash: the legacy path -/
-def legacyKey : AnyClaim → Str
-  | .bc c => legacyBridgeCallPath c
-  | .bcr c => legacyBridgeCallResultPath c
-  | .bt c => legacyBridgeTokenPath c
-  | c => c.path
+def legacyKey : AnyClaim → Str := AnyClaim.legacyPath
 
 /-- three oracles of power 10 (threshold 66 % of 30 = 19); oracle 0 votes for the bridge call with an empty memo, oracle 1
 for the same call with the send-call-to memo and another origin -/
